@@ -48,6 +48,8 @@ class Gen:
         self.funcs = []          # (name, [ptypes], ret)
         self.globals = []
         self.fuel = 0
+        self.impure_ok = True      # may the expression being generated call effectful functions / read mutable globals?
+        self.mut_globals = set()
 
     def fresh(self, p="v"):
         self.n += 1
@@ -61,9 +63,21 @@ class Gen:
         return r.randint(-9, 1000)
 
     # ------------------------------------------------------------ expressions
+    def multi(self, *gens):
+        """children of one operator / call / literal: at most one of them may have effects or read a mutable global,
+        so that the (unspecified) C evaluation order of siblings cannot show (finding F17 is exercised by families.py)"""
+        k = self.r.randrange(len(gens)) if self.impure_ok else -1
+        out = []
+        for i, g in enumerate(gens):
+            saved = self.impure_ok
+            self.impure_ok = saved and i == k
+            out.append(g())
+            self.impure_ok = saved
+        return out
+
     def expr(self, ty, sc, d):
         r = self.r
-        vs = [v for v in sc.all() if v[1] == ty]
+        vs = [v for v in sc.all() if v[1] == ty and (self.impure_ok or v[0] not in self.mut_globals)]
         if d <= 0 or r.random() < 0.25:
             if vs and r.random() < 0.6:
                 return V(r.choice(vs)[0])
@@ -72,20 +86,20 @@ class Gen:
             c = r.random()
             if c < 0.30:
                 op = r.choice(["+", "-", "*"])
-                return Bin(op, self.expr("int", sc, d - 1), self.expr("int", sc, d - 1))
+                return Bin(op, *self.multi(lambda: self.expr("int", sc, d - 1), lambda: self.expr("int", sc, d - 1)))
             if c < 0.40:
                 op = r.choice(["/", "%"])
                 dv = r.choice([1, 2, 3, -2, 7, -1, 10])
                 return Bin(op, self.expr("int", sc, d - 1), I(dv))
-            if c < 0.50: return Call("t", self.expr("int", sc, d - 1))
+            if c < 0.50 and self.impure_ok: return Call("t", self.expr("int", sc, d - 1))
             if c < 0.55:
-                ivs = [v for v in sc.all() if v[1] == "int"]
+                ivs = [v for v in sc.all() if v[1] == "int" and (self.impure_ok or v[0] not in self.mut_globals)]
                 if ivs: return Un("-", V(r.choice(ivs)[0]))
             if c < 0.62:
                 fs = [f for f in self.funcs if f[2] == "int"]
-                if fs:
+                if fs and self.impure_ok:
                     f = r.choice(fs)
-                    return Call(f[0], *[self.expr(t, sc, d - 1) for t in f[1]])
+                    return Call(f[0], *self.multi(*[(lambda t=t: self.expr(t, sc, d - 1)) for t in f[1]])) if f[1] else Call(f[0])
             if c < 0.68: return self.mathcall(sc, d)
             if c < 0.74:
                 ps = [v for v in sc.all() if v[1] == "Point"]
@@ -104,15 +118,15 @@ class Gen:
         if ty == "bool":
             c = r.random()
             if c < 0.35:
-                a, b = self.expr("int", sc, d - 1), self.expr("int", sc, d - 1)
+                a, b = self.multi(lambda: self.expr("int", sc, d - 1), lambda: self.expr("int", sc, d - 1))
                 if a == b: b = Bin("+", b, I(1))
                 return Bin(r.choice(["<", "<=", ">", ">=", "==", "!="]), a, b)
             if c < 0.6:
                 return Bin(r.choice(["and", "or"]), self.expr("bool", sc, d - 1), self.expr("bool", sc, d - 1))
             if c < 0.7: return Un("not", self.expr("bool", sc, d - 1))
-            if c < 0.8: return Call("tb", self.expr("bool", sc, d - 1))
+            if c < 0.8 and self.impure_ok: return Call("tb", self.expr("bool", sc, d - 1))
             if c < 0.88:
-                a, b = self.expr("string", sc, d - 1), self.expr("string", sc, d - 1)
+                a, b = self.multi(lambda: self.expr("string", sc, d - 1), lambda: self.expr("string", sc, d - 1))
                 if a == b: b = Bin("+", b, S("q"))
                 return Bin(r.choice(["==", "!="]), a, b)
             if c < 0.93:
@@ -121,7 +135,7 @@ class Gen:
             return self.lit(ty, sc, d)
         if ty == "string":
             c = r.random()
-            if c < 0.3: return Bin("+", self.expr("string", sc, d - 1), self.expr("string", sc, d - 1))
+            if c < 0.3: return Bin("+", *self.multi(lambda: self.expr("string", sc, d - 1), lambda: self.expr("string", sc, d - 1)))
             if c < 0.5: return Call("int_to_string", self.expr("int", sc, d - 1))
             if c < 0.6:
                 rs = [v for v in sc.all() if v[1] == "Rec"]
@@ -135,7 +149,7 @@ class Gen:
     def mathcall(self, sc, d):
         f = self.r.choice(["max", "abs", "max", "min"])
         if f == "abs": return Call("abs", self.expr("int", sc, d - 1))
-        return Call(f, self.expr("int", sc, d - 1), self.expr("int", sc, d - 1))
+        return Call(f, *self.multi(lambda: self.expr("int", sc, d - 1), lambda: self.expr("int", sc, d - 1)))
 
     def lit(self, ty, sc, d):
         r = self.r
@@ -143,17 +157,22 @@ class Gen:
         if ty == "bool": return B(r.random() < 0.5)
         if ty == "string": return S(r.choice(["", "a", "hi", "x y", "nano", "Z9"]))
         if ty == "Color": return Enum("Color." + r.choice(["Red", "Green", "Blue"]))
-        if ty == "Point": return SLit("Point", [("x", self.expr("int", sc, d - 1)), ("y", self.expr("int", sc, d - 1))])
-        if ty == "Rec": return SLit("Rec", [("tag", self.expr("string", sc, d - 1)), ("p", self.expr("Point", sc, d - 1)),
-                                            ("ok", self.expr("bool", sc, d - 1))])
+        if ty == "Point":
+            x, y = self.multi(lambda: self.expr("int", sc, d - 1), lambda: self.expr("int", sc, d - 1))
+            return SLit("Point", [("x", x), ("y", y)])
+        if ty == "Rec":
+            a, b, c = self.multi(lambda: self.expr("string", sc, d - 1), lambda: self.expr("Point", sc, d - 1), lambda: self.expr("bool", sc, d - 1))
+            return SLit("Rec", [("tag", a), ("p", b), ("ok", c)])
         if ty == "Shape":
             c = r.random()
             if c < 0.4: return ULit("Shape.Circle", [("r", self.expr("int", sc, d - 1))])
-            if c < 0.8: return ULit("Shape.Rect", [("w", self.expr("int", sc, d - 1)), ("h", self.expr("int", sc, d - 1))])
+            if c < 0.8:
+                w, h = self.multi(lambda: self.expr("int", sc, d - 1), lambda: self.expr("int", sc, d - 1))
+                return ULit("Shape.Rect", [("w", w), ("h", h)])
             return ULit("Shape.Empty", [])
-        if ty == "array<int>": return ALit("int", [self.expr("int", sc, d - 1) for _ in range(r.randint(1, 4))])
-        if ty == "array<string>": return ALit("string", [self.expr("string", sc, d - 1) for _ in range(r.randint(1, 3))])
-        if ty == "(int, string)": return TLit([self.expr("int", sc, d - 1), self.expr("string", sc, d - 1)])
+        if ty == "array<int>": return ALit("int", self.multi(*[(lambda: self.expr("int", sc, d - 1)) for _ in range(r.randint(1, 4))]))
+        if ty == "array<string>": return ALit("string", self.multi(*[(lambda: self.expr("string", sc, d - 1)) for _ in range(r.randint(1, 3))]))
+        if ty == "(int, string)": return TLit(self.multi(lambda: self.expr("int", sc, d - 1), lambda: self.expr("string", sc, d - 1)))
         raise ValueError(ty)
 
     # ------------------------------------------------------------- statements
@@ -266,7 +285,7 @@ class Gen:
         if r.random() < 0.7:
             gl.append(("G1", "int", False, I(self.small()))); gsc.vars.append(("G1", "int", False))
         if r.random() < 0.6:
-            gl.append(("gm", "int", True, I(r.randint(0, 5)))); gsc.vars.append(("gm", "int", True))
+            gl.append(("gm", "int", True, I(r.randint(0, 5)))); gsc.vars.append(("gm", "int", True)); self.mut_globals.add("gm")
         for k in range(r.randint(1, 3)):
             name = "f%d" % k
             ptys = [r.choice(["int", "int", "bool", "string", "Point", "array<int>", "Shape"]) for _ in range(r.randint(0, 3))]
